@@ -293,9 +293,9 @@ def w_ops(keys, d):
     ops.append(["set1", absent, 99])
     pairs = [list(p) for p in itertools.product(keys[:3], repeat=2)][:5]
     for q in pairs:
-        ops.append(["setv", q, 61])
+        ops.append(["setv", q, 300])          # (values outside the range of the narrow key dtypes: keys and values must not share a dtype)
     for q in [list(p) for p in itertools.permutations(keys[:3], 2)][:3]:
-        ops.append(["setvv", q, [71, 72]])
+        ops.append(["setvv", q, [-300, 72]])
     ops.append(["setv", [keys[0], absent], 98])
     if len(keys) > 1:
         ops.append(["setv_arr", [keys[-1], keys[0]], 63])
